@@ -226,7 +226,9 @@ CONTRACTS[F + "sparse_diff"] = dict(
              "implies(len(old(ind1)) > 0 and len(old(ind2)) > 0, unchanged(ind1) and unchanged(ind2))"],
 )
 CONTRACTS[F + "sparse_total_variation"] = dict(
-    params=_SP, requires=SORTED_PRE, returns="real",
+    # positive total mass (C18's domain): with a zero sum the normalisation is 0/0 = NaN in IEEE arithmetic, which the real-number
+    # model cannot see - the engine cross-check found exactly that input ([3, 0] vs [0]) when this precondition was missing
+    params=_SP, requires=SORTED_PRE + ["psum(data1, len(data1)) > 0", "psum(data2, len(data2)) > 0"], returns="real",
     modifies=["ind1", "ind2"],
     ensures=["result >= 0", "unchanged(data1) and unchanged(data2)"],
     loops={"for#1": dict(invariant=["result >= 0"])},
